@@ -17,6 +17,7 @@ from __future__ import annotations
 import functools
 import itertools
 import random
+from types import SimpleNamespace
 
 from antismash.common import hmmer as hmmer_module
 from antismash.common import hmmscan_refinement as refinement
@@ -71,7 +72,7 @@ REQUIRED = ["op:refine-normal", "op:refine-neighbour", "op:refine-permutation", 
             "boundary:overlap-at-margin", "boundary:merge-span-at-limit", "boundary:hmmer-overlap-at-limit",
             "boundary:docking-49/50", "out:merge", "drop:better-kept-conflict", "drop:incomplete-with-alternative",
             "filter_results:overlap-group", "filter_multiple:profile-with-copies", "exhaustive:sets",
-            "op:refine-real-biopython-objects"]
+            "op:refine-real-biopython-objects", "op:ruleset-history"]
 
 MAX_ALL_PERMS = 5
 RANDOM_PERMS = 10
@@ -583,6 +584,75 @@ def run_filter_case(ctx, case):
 
 
 # --------------------------------------------------------------------------------------------
+# the competition as the pipeline runs it: one Ruleset object, several records
+# --------------------------------------------------------------------------------------------
+
+def run_ruleset_history_case(ctx, case):
+    """ the real detect_protoclusters_and_signatures (find_hmmer_hits -> filter_results -> filter_result_multiple) with
+        the equivalence groups held by one Ruleset that is built as hmm_detection.get_ruleset builds it and then used
+        for three records in a row; only run_hmmsearch is replaced (by the generated hits). The surviving hits of
+        every record must be those of the direct call with the configured groups. """
+    from antismash.common.hmm_rule_parser import rule_parser
+    from antismash.common.hmm_rule_parser.cluster_prediction import Ruleset
+    from antismash.common.hmm_rule_parser.structures import Multipliers
+    from antismash.common.secmet.test.helpers import DummyCDS, DummyRecord
+    from antismash.common.signature import HmmSignature
+    hits, groups = case["hits"], case["groups"]
+    profiles = sorted({h[1] for h in hits} | {p for g in groups for p in g})
+    signatures = {name: HmmSignature(name, name + " description", 1, "dummy.hmm") for name in profiles}
+    rule = rule_parser.DetectionRule("any", "cat", 5000, 5000, rule_parser.SingleCondition(False, profiles[0]))
+    try:
+        base = Ruleset((rule,), signatures, "dummy.hmm", {"cat"}, "verif", equivalence_groups=[set(g) for g in groups])
+        ruleset = base.copy_with_replacements(rules=list(base.rules), multipliers=Multipliers())
+    except Exception as err:  # pylint: disable=broad-except
+        ctx.violate("ruleset-history-crash", {"exception": type(err).__name__, "message": str(err)[:160], "stage": "build"}, case)
+        return
+    expected = _as_sets(_call_filters(hits, groups)["after_multiple"][1])
+    genes = sorted({h[0] for h in hits})
+    captured = {}
+    real_find = cluster_prediction.find_hmmer_hits
+    real_search = cluster_prediction.run_hmmsearch
+
+    def fake_search(*_args, **_kwargs):
+        per_profile = {}
+        for gene, profile, start, end, score in hits:
+            per_profile.setdefault(profile, []).append(
+                StubHSP(gene, profile, query_start=start, query_end=end, hit_start=start, hit_end=end,
+                        bitscore=score + 1, evalue=G.evalue_of(score)))
+        return [SimpleNamespace(accession=profile, id=profile, hsps=hsps) for profile, hsps in per_profile.items()]
+
+    def spying_find(*args, **kwargs):
+        captured["hits"] = real_find(*args, **kwargs)
+        return captured["hits"]
+    cluster_prediction.run_hmmsearch = fake_search
+    cluster_prediction.find_hmmer_hits = spying_find
+    try:
+        for index in range(3):
+            record = DummyRecord(features=[DummyCDS(start=30 + 2000 * i, end=1530 + 2000 * i, locus_tag=gene)
+                                           for i, gene in enumerate(genes)], seq="A" * (2000 * len(genes) + 100))
+            record.id = f"rec{index}"
+            captured.clear()
+            try:
+                cluster_prediction.detect_protoclusters_and_signatures(record, ruleset)
+            except Exception as err:  # pylint: disable=broad-except
+                ctx.violate("ruleset-history-crash", {"exception": type(err).__name__, "message": str(err)[:160],
+                                                      "stage": "detect", "record_index": index}, case)
+                return
+            ctx.count("op:ruleset-history")
+            got = {gene: sorted(PHit(h.query_id, h.query_start, h.query_end, h.bitscore - 1) for h in members)
+                   for gene, members in captured.get("hits", {}).items() if members}
+            if got != {g: m for g, m in expected.items() if m}:
+                ctx.violate("competition-same-for-every-record-of-a-run",
+                            {"record_index": index, "groups": groups, "got": {g: [list(h) for h in m] for g, m in got.items()},
+                             "expected": {g: [list(h) for h in m] for g, m in expected.items()}}, case)
+                return
+    finally:
+        cluster_prediction.run_hmmsearch = real_search
+        cluster_prediction.find_hmmer_hits = real_find
+    ctx.case(("ruleset-history", sorted(map(tuple, hits)), groups), nontrivial=bool(groups) and len(hits) > 1)
+
+
+# --------------------------------------------------------------------------------------------
 # filter_nonterminal_docking_domains
 # --------------------------------------------------------------------------------------------
 
@@ -718,7 +788,14 @@ def exhaustive_refine(ctx, max_hits):
                                     f"all orders (share {ctx.worker + 1}/{ctx.nworkers})")
 
 
-RUNNERS = {"refine": run_refine_case, "hmmer": run_hmmer_case, "filter": run_filter_case, "docking": run_docking_case}
+def _history_case(rng):
+    case = G.filter_case(rng)
+    case["fn"] = "ruleset-history"
+    return case
+
+
+RUNNERS = {"refine": run_refine_case, "hmmer": run_hmmer_case, "filter": run_filter_case, "docking": run_docking_case,
+           "ruleset-history": run_ruleset_history_case}
 
 
 def run(ctx):
@@ -727,9 +804,10 @@ def run(ctx):
     plan = [("refine", G.refine_case, ctx.quota(8000, 1000000)),
             ("hmmer", G.hmmer_case, ctx.quota(2500, 250000)),
             ("filter", G.filter_case, ctx.quota(2500, 250000)),
-            ("docking", G.docking_case, ctx.quota(400, 20000))]
+            ("docking", G.docking_case, ctx.quota(400, 20000)),
+            ("ruleset-history", _history_case, ctx.quota(150, 20000))]
     reserve = 0.25 * ctx.budget_s
-    shares = {"refine": 0.45, "hmmer": 0.15, "filter": 0.12, "docking": 0.03}
+    shares = {"refine": 0.42, "hmmer": 0.14, "filter": 0.11, "docking": 0.03, "ruleset-history": 0.05}
     for name, gen, count in plan:
         rng = ctx.rng(name)
         stop_at = ctx.time_left() - shares[name] * ctx.budget_s
